@@ -176,14 +176,19 @@ def top(t) -> str:
 class Render:
     def __init__(self):
         self.bind: Dict[str, Any] = {}
+        self.names: Dict[str, str] = {}
 
     def lit(self, spec, via) -> str:
         if via == "lit":
             s = V.to_lit(spec)
             if s is not None:
                 return s
+        key = repr(spec)
+        if key in self.names:
+            return self.names[key]      # the same value bound once and mentioned twice: `v0 + v0`, `v0 in [..]` (identity)
         name = f"v{len(self.bind)}"
         self.bind[name] = V.to_obj(spec)
+        self.names[key] = name
         return name
 
     def r(self, e) -> str:
@@ -626,8 +631,141 @@ def macro_family(rng: random.Random, quick: bool) -> List[list]:
     return core + rest
 
 
+def S_(t: str):
+    return ["s", [ord(c) for c in t]]
+
+
+def type_family(rng: random.Random, quick: bool) -> List[list]:
+    """`type()` systematically: of a value of each of the twelve kinds (and of containers), of each of the twelve type
+    NAMES (`type(int)`, `type(null_type)`, `type(type)`), of a type (`type(type(x))` for x of every kind), three deep, and
+    a type compared with a type name; type names spelled or bound as variables"""
+    core, rest = [], []
+    vals = [["i", 1], ["u", 1], ["d", V.bits_of(1.5)], ["b", 1], S_("a"), ["y", [97]], ["l", [["i", 1]]], ["m", [[S_("a"), ["i", 1]]]],
+            ["z"], ["t", 1234567890 * 10**6, 0], ["r", 10**6], ["T", "int"]]
+    for i, name in enumerate(NAMES):
+        via = "lit" if (i + rng.randrange(2)) % 2 else "var"
+        core.append(["type", ["lit", ["T", name], via]])
+        rest.append(["type", ["lit", ["T", name], "var" if via == "lit" else "lit"]])
+        rest.append(["rel", "eq", ["type", ["lit", ["T", name], "lit"]], ["lit", ["T", "type"], "lit"]])
+        rest.append(["type", ["type", ["lit", ["T", name], "lit"]]])
+    for v in vals:
+        via = rng.choice(["lit", "var"])
+        core.append(["type", ["type", ["lit", v, via]]])
+        rest.append(["type", ["lit", v, via]])
+        rest.append(["type", ["type", ["type", ["lit", v, via]]]])
+        rest.append(["rel", "eq", ["type", ["type", ["lit", v, "lit"]]], ["lit", ["T", "type"], "lit"]])
+        rest.append(["rel", "ne", ["type", ["lit", v, "lit"]], ["type", ["type", ["lit", v, "lit"]]]])
+    rest.append(["type", ["lit", ["l", []], "lit"]])
+    rest.append(["type", ["lit", ["m", []], "lit"]])
+    rest.append(["type", ["list", [["type", ["lit", ["i", 1], "lit"]]]]])
+    return core + (rng.sample(rest, 12) if quick else rest)
+
+
+IN_KEY_VALS = {"i": [["i", 1], ["i", 2], ["i", 3]], "u": [["u", 1], ["u", 2], ["u", 3]], "b": [["b", 1], ["b", 0], ["b", 1]],
+               "s": [S_("k"), S_("j"), S_("")]}
+IN_LIST_VALS = dict(IN_KEY_VALS, d=[["d", V.bits_of(1.5)], ["d", V.bits_of(0.0)], ["d", V.bits_of(-2.0)]],
+                    y=[["y", [97]], ["y", []], ["y", [98]]], t=[["t", 0, 0], ["t", 10**6, 0], ["t", 2 * 10**6, 60]],
+                    r=[["r", 0], ["r", 10**6], ["r", -10**6]], z=[["z"], ["z"], ["z"]])
+
+
+def in_family(rng: random.Random, quick: bool) -> List[list]:
+    """`in` for every pair (item type, container kind): a map keyed by int / uint / bool / string, a list of each scalar
+    type; the item found first / found last / not found / the container empty; at the root and under `!`, `?:`, `&&`;
+    item and container spelled or bound as variables"""
+    core, rest = [], []
+    for kt, (a, b, c) in sorted(IN_KEY_VALS.items()):
+        distinct = [a] + ([b] if b != a else []) + ([c] if c not in (a, b) else [])
+        full = ["m", [[k, ["i", 10 + j]] for j, k in enumerate(distinct)]]
+        missing = ["m", [[k, ["i", 10 + j]] for j, k in enumerate(distinct[1:])]]
+        for tag, item, cont in (("first", a, full), ("last", distinct[-1], full), ("miss", a, missing), ("empty", a, ["m", []])):
+            e = ["in", ["lit", item, rng.choice(["lit", "var"])], ["lit", cont, rng.choice(["lit", "var"])]]
+            (core if tag in ("first", "miss") else rest).append(e)
+            ctxs = [["not", e], ["cond", e, ["lit", ["i", 1], "lit"], ["lit", ["i", 2], "lit"]], ["and", e, ["lit", ["b", 1], "lit"]],
+                    ["or", ["lit", ["b", 0], "lit"], e]]
+            k = rng.randrange(len(ctxs))
+            (core if tag == "first" else rest).append(ctxs[k])
+            rest += [x for j, x in enumerate(ctxs) if j != k]
+    for et, (a, b, c) in sorted(IN_LIST_VALS.items()):
+        for tag, item, cont in (("first", a, [a, b, c]), ("last", c, [a, b, c]), ("miss", a, [b] if b != a else []), ("empty", a, [])):
+            if tag == "miss" and not cont:
+                continue
+            e = ["in", ["lit", item, rng.choice(["lit", "var"])], ["lit", ["l", cont], rng.choice(["lit", "var"])]]
+            (core if tag == "first" or (tag == "miss" and et in ("i", "s")) else rest).append(e)
+            rest.append(["not", e])
+    return core + (rng.sample(rest, 16) if quick else rest)
+
+
+BOUNDARY = {
+    "i": [["i", 0], ["i", 1], ["i", -1], ["i", 2**63 - 1], ["i", -2**63], ["i", 7]],
+    "u": [["u", 0], ["u", 1], ["u", 2**64 - 1], ["u", 7]],
+    "d": [["d", V.bits_of(0.0)], ["d", V.bits_of(1.0)], ["d", V.bits_of(-0.0)], ["d", V.bits_of(float("inf"))], ["d", "nan"],
+          ["d", V.bits_of(2.5)]],
+    "s": [S_(""), S_("a")], "y": [["y", []], ["y", [97]]],
+    "t": [["t", 0, 0], ["t", 1234567890 * 10**6, 0], ["t", 951782400 * 10**6, 330]],
+    "r": [["r", 0], ["r", 10**6], ["r", -10**6], ["r", 1]],
+    ("l", "i"): [["l", []], ["l", [["i", 1]]]],
+}
+
+
+def boundary_family(rng: random.Random, quick: bool) -> List[list]:
+    """every binary rule on identity / boundary operands (0, 1, -1, the range ends, 0.0, -0.0, inf, nan, the empty string /
+    bytes / list, the zero duration, the epoch) in either position, `x op x` on ONE bound variable, unary minus of
+    them, and every conversion applied to a value that already has the target type"""
+    core, rest = [], []
+    rules = sorted(BIN_RULES) + [("add", ("l", "i"), ("l", "i"))]
+    for op, a, b in rules:
+        A, B = BOUNDARY[a], BOUNDARY[b]
+        pairs = [(x, y) for x in A for y in B]
+        main = [(A[0], B[0]), (A[0], B[-1]), (A[-1], B[0])]
+        for x, y in pairs:
+            e = ["bin", op, ["lit", x, rng.choice(["lit", "var"])], ["lit", y, rng.choice(["lit", "var"])]]
+            (core if (x, y) in main else rest).append(e)
+        if a == b:
+            x = rng.choice(A)
+            (core if op in ("add", "sub") else rest).append(["bin", op, ["lit", x, "var"], ["lit", x, "var"]])
+    for t in ("i", "d", "r"):
+        for j, x in enumerate(BOUNDARY[t]):
+            (core if j == 0 else rest).append(["neg", ["lit", x, rng.choice(["lit", "var"])]])
+    for t in ("i", "u", "d", "s", "y", "b", "t", "r"):
+        x = BOUNDARY[t][0] if t in BOUNDARY else ["b", 0]
+        core.append(["conv", t, ["lit", x, rng.choice(["lit", "var"])]])
+        rest.append(["conv", t, ["conv", t, ["lit", BOUNDARY[t][-1] if t in BOUNDARY else ["b", 1], "lit"]]])
+    return core + (rng.sample(rest, 24) if quick else rest)
+
+
+def pred_rel_family(rng: random.Random, quick: bool) -> List[list]:
+    """each string predicate with a hit and a miss, `size` of an empty / non-empty string, bytes, list, map, and each
+    relation between a value and ITSELF (one bound variable mentioned twice: equal and identical) for every kind"""
+    core, rest = [], []
+    for k in range(4):
+        for hit, (x, y) in ((True, ("abc", ("ab", "bc", "b", "b+")[k])), (False, ("abc", "x"))):
+            e = ["pred", k, ["lit", S_(x), rng.choice(["lit", "var"])], ["lit", S_(y), "lit" if k == 3 else rng.choice(["lit", "var"])]]
+            core.append(e)
+            rest += [["not", e], ["and", e, ["not", e]], ["cond", e, ["lit", S_("y"), "lit"], ["lit", S_("n"), "lit"]]]
+    for x in (S_(""), S_("ab"), ["y", []], ["y", [1, 2]], ["l", []], ["l", [["i", 1]]], ["m", []], ["m", [[S_("a"), ["i", 1]]]]):
+        (core if x[1] else rest).append(["size", ["lit", x, rng.choice(["lit", "var"])]])
+    vals = [["i", 1], ["u", 1], ["d", V.bits_of(1.5)], ["b", 1], S_("a"), ["y", [97]], ["t", 1234567890 * 10**6, 0], ["r", 10**6],
+            ["l", [["i", 1]]], ["m", [[S_("a"), ["i", 1]]]], ["z"], ["T", "int"]]
+    for j, x in enumerate(vals):
+        core.append(["rel", "eq", ["lit", x, "var"], ["lit", x, "var"]])
+        rest.append(["rel", "ne", ["lit", x, "var"], ["lit", x, "var"]])
+        rest.append(["rel", "eq", ["lit", x, "lit"], ["lit", x, "var"]])
+        if j < 8:
+            for op in ("lt", "le", "gt", "ge"):
+                rest.append(["rel", op, ["lit", x, "var"], ["lit", x, "var"]])
+    return core + (rng.sample(rest, 16) if quick else rest)
+
+
+class SecondEvaluationFailed:
+    """evaluating the same program on the same input again did not yield a value although the first evaluation did"""
+    def __init__(self, what):
+        self.what = what
+
+
 def canon_cls(v) -> str:
     from celpy import celtypes
+    if isinstance(v, SecondEvaluationFailed):
+        return f"no-value:{v.what}"
     t = type(v)
     table = {celtypes.IntType: "int", celtypes.UintType: "uint", celtypes.DoubleType: "double", celtypes.BoolType: "bool",
              celtypes.StringType: "string", celtypes.BytesType: "bytes", celtypes.ListType: "list", celtypes.MapType: "map",
@@ -722,6 +860,13 @@ class C13(Prop):
         for e in macro_family(rng, quick):
             for runner in ("I", "C"):
                 cases.append({"kind": "expr", "e": e, "runner": runner})
+        # round 2: systematic families for rarely combined type pairs, boundary / identity operands, type-of-type chains,
+        # identical operands; the two runners in either order (state shared between runners / environments is exercised
+        # both ways: every evaluation of a check run happens in ONE process)
+        for fam in (type_family, in_family, boundary_family, pred_rel_family):
+            for e in fam(rng, quick):
+                for runner in (("I", "C") if rng.random() < 0.5 else ("C", "I")):
+                    cases.append({"kind": "expr", "e": e, "runner": runner})
         # `type(x op y) == type(x)` evaluated inside CEL
         for (op, a, b), r in sorted(BIN_RULES.items()):
             if r != a:
@@ -733,19 +878,46 @@ class C13(Prop):
         return cases
 
     # -- implementation -----------------------------------------------------------------------------------------
-    def _eval(self, src, runner, bind):
-        """-> ('val', object) | ('err', None) | ('exc', name)"""
+    def _eval(self, src, runner, bind, again=False):
+        """-> ('val', object) | ('err', None) | ('exc', name); with `again`: ('val', (first, second evaluation))"""
         import celpy
         from celpy.evaluation import CELEvalError
         try:
             env = celpy.Environment(runner_class=celrun.RUNNERS[runner])
             ast_ = env.compile(src)
             prog = env.program(ast_)
-            return "val", prog.evaluate(dict(bind))
+            v = prog.evaluate(dict(bind))
+            if again:
+                # the SAME program on the SAME input once more: a memo / cache / lazily initialised state must not change
+                # the class of what is handed back (the type vector below re-evaluates the expression in a fresh program)
+                try:
+                    v2 = prog.evaluate(dict(bind))
+                except CELEvalError:
+                    v2 = SecondEvaluationFailed("error")
+                except Exception as ex:   # noqa
+                    v2 = SecondEvaluationFailed(type(ex).__name__)
+                return "val", (v, v2)
+            return "val", v
         except CELEvalError:
             return "err", None
         except celpy.CELParseError:
             return "exc", "parse-error"
+        except Exception as ex:   # noqa
+            return "exc", type(ex).__name__
+
+    _vec: Dict[str, Any] = {}
+
+    def _vector(self, runner, tobj):
+        """`[t == int, t == uint, …]` inside CEL with `t` bound to the object `type(e)` handed back (program built once)"""
+        import celpy
+        from celpy.evaluation import CELEvalError
+        try:
+            if runner not in self._vec:
+                env = celpy.Environment(runner_class=celrun.RUNNERS[runner])
+                self._vec[runner] = env.program(env.compile("[" + ", ".join(f"t == {n}" for n in NAMES) + "]"))
+            return "val", self._vec[runner].evaluate({"t": tobj})
+        except CELEvalError:
+            return "err", None
         except Exception as ex:   # noqa
             return "exc", type(ex).__name__
 
@@ -759,22 +931,35 @@ class C13(Prop):
             out = celrun.canon(v) if k == "val" else ("err" if k == "err" else f"EXC {v}")
             c["_impl_out"] = out
             return out
-        k, v = self._eval(src, runner, rd.bind)
+        k, v = self._eval(src, runner, rd.bind, again=True)
         if k == "err":
             out = "err"
         elif k == "exc":
             out = f"EXC {v}"
         else:
+            v, v_again = v
             cls = canon_cls(v)
-            # `type(e) == T` for the twelve names, inside CEL
-            k2, v2 = self._eval("[" + ", ".join(f"type({src}) == {n}" for n in NAMES) + "]", runner, rd.bind)
-            if k2 == "val" and len(v2) == 12:
-                tv = "".join(("T" if x else "F") if canon_cls(x) == "bool" else ("t" if x else "f") for x in v2)
-            else:
-                tv = ""
-                for n in NAMES:
-                    k3, v3 = self._eval(f"type({src}) == {n}", runner, rd.bind)
-                    tv += ("E" if k3 != "val" else (("T" if v3 else "F") if canon_cls(v3) == "bool" else ("t" if v3 else "f")))
+            if canon_cls(v_again) != cls:
+                cls = f"{cls}->{canon_cls(v_again)}(second-evaluation-of-the-same-program)"
+            # `type(e) == T` for the twelve names, inside CEL: one list of the twelve comparisons for a short text; for a
+            # long one (parsing twelve copies is what the run time goes into) `type(e)` is evaluated inside CEL and the
+            # type object it hands back is compared, again inside CEL, with the twelve names
+            tv = None
+            if len(src) > 60:
+                k2, tobj = self._eval(f"type({src})", runner, rd.bind)
+                if k2 == "val":
+                    k3, v2 = self._vector(runner, tobj)
+                    if k3 == "val" and len(v2) == 12:
+                        tv = "".join(("T" if x else "F") if canon_cls(x) == "bool" else ("t" if x else "f") for x in v2)
+            if tv is None:
+                k2, v2 = self._eval("[" + ", ".join(f"type({src}) == {n}" for n in NAMES) + "]", runner, rd.bind)
+                if k2 == "val" and len(v2) == 12:
+                    tv = "".join(("T" if x else "F") if canon_cls(x) == "bool" else ("t" if x else "f") for x in v2)
+                else:
+                    tv = ""
+                    for n in NAMES:
+                        k3, v3 = self._eval(f"type({src}) == {n}", runner, rd.bind)
+                        tv += ("E" if k3 != "val" else (("T" if v3 else "F") if canon_cls(v3) == "bool" else ("t" if v3 else "f")))
             out = f"ok {cls} {tv}"
         c["_impl_out"] = out
         return out
